@@ -424,6 +424,12 @@ def is_required(p):
     return not p["hd"] and not p["t"].startswith("opt_")
 
 
+def _not_empty(v):
+    """an unknown config key whose value is {} is silently dropped by jsonargparse (an empty branch has no leaf key to
+    validate; C06's subject): settings for parameters that are NOT offered never use the empty dict"""
+    return {"k": "dict", "d": {"k": 1}} if v.get("k") == "dict" and not v["d"] else v
+
+
 def rnd_level_tokens(rnd, ps, aspos, p_bad=0.06):
     """tokens giving a random subset of the parameters of one level, in random ways"""
     early, late, words, opts = {}, {}, [], []
@@ -433,8 +439,9 @@ def rnd_level_tokens(rnd, ps, aspos, p_bad=0.06):
                            [2 if not req else 0.4, 6, 3, 1.5, 1.5, p_bad * 10, p_bad * 10, 0.5])[0]
         if mode == "absent":
             continue
+        hidden = p["n"].startswith("_") and not is_required(p)
         if mode in ("cfg", "cfg_arg"):
-            early[p["n"]] = rnd_value(rnd, p["t"], "cfg")
+            early[p["n"]] = _not_empty(rnd_value(rnd, p["t"], "cfg")) if hidden else rnd_value(rnd, p["t"], "cfg")
         if mode in ("arg", "cfg_arg", "arg_cfg", "bad_arg", "null"):
             v = rnd_wrong(rnd, p["t"], "argv") if mode == "bad_arg" else {"k": "null"} if mode == "null" else rnd_value(rnd, p["t"], "argv")
             if req:
@@ -443,6 +450,8 @@ def rnd_level_tokens(rnd, ps, aspos, p_bad=0.06):
                 opts.append({"k": "opt", "n": p["n"], "v": v})
         if mode in ("arg_cfg", "bad_cfg"):
             late[p["n"]] = rnd_wrong(rnd, p["t"], "cfg") if mode == "bad_cfg" else rnd_value(rnd, p["t"], "cfg")
+            if hidden:
+                late[p["n"]] = _not_empty(late[p["n"]])
     # words keep their order; options are shuffled and interleaved with the words
     rnd.shuffle(opts)
     mid = []
